@@ -113,7 +113,11 @@ def _c09_sweeps():
     qthr = [{"prog": prog_str(t, num), "throwat": k, "big": b} for b in (0, 1) for t in thread_programs(["P", "G"], 3, 2, keep=lambda c: npush(c) >= 2) for k in (1, 2)]
     qaf = [{"prog": prog_str(t, num), "allocfail": k} for t in thread_programs(["P", "G"], 3, 2, keep=lambda c: npush(c) >= 1) for k in (1, 2) if k <= npush(t)]
     bqaf = [{"prog": prog_str(t, num), "allocfail": k, "cap": 4} for t in thread_programs(["P", "Q", "T", "G"], 2, 2, keep=lambda c: npush(c) >= 2) if bq_completes(t, 4, 0, 1) for k in (1, 2)]
+    longp = ",".join("P%d" % (100 + i) for i in range(36))
+    mixp = ",".join(("P%d" % (100 + i)) + (",G" if i % 3 == 2 else "") for i in range(36))
+    qafl = [{"prog": p, "allocfail": k, "pre": pre, "bounded": b, "cap": 64} for p in (longp, mixp) for b in (0, 1) for pre in (0, 3) for k in range(1, 13)]
     return [
+        sweep("sweep-allocfail-long", "c09_queue", (0, 0), qafl, what="one thread, 36 pushes (plain, and with a try_pop after every third) then a drain, one element per page, the 1st .. 12th page allocation throws: the dead lane is met again every 8 tickets, pushes into it throw, pops must pass over every one of its tickets; both queue classes, tickets starting at 0 and 3", tiers=("quick", "thorough")),
         sweep("sweep-q-allocfail", "c09_queue", (1, 2), qaf, what="concurrent_queue with one element per page: the first / second page allocation inside the window throws std::bad_alloc (the lane is invalidated: the failing push and later pushes into that lane throw, pops must pass over their tickets)", tiers=("quick", "thorough")),
         sweep("sweep-bq-allocfail", "c09_queue", (1, 2), bqaf, {"bounded": 1}, what="concurrent_bounded_queue (capacity 4): page allocation failure with blocking pops"),
         sweep("sweep-bq-throw-2x2", "c09_queue", (2, 3), bqthr2, {"bounded": 1}, what="capacity 2, two threads, programs with a blocking pop and at least two pushes that cannot block forever even if one push fails; the first / second element copy throws (a blocked pop must be woken by the next successful push)", tiers=("quick", "thorough")),
@@ -282,7 +286,11 @@ def _c11_sweeps():
     tp2 = thread_programs(["B", "G2", "G5", "L9"], 2, 2)
     sw2 = [{"prog": prog_str(t), "pre": pre} for pre in (0, 1, 6, 14) for t in tp2]
     thr = [{"prog": prog_str(t), "pre": pre, "throwat": k} for pre in (0, 1, 7) for t in thread_programs(["B", "G2", "G3"], 3, 1) for k in (1, 2, 3)]
+    af = [{"prog": prog_str(t), "pre": pre, "allocfail": k} for pre in (0, 1, 6, 7, 8) for t in thread_programs(["B", "G3", "G9", "L9"], 2, 1) for k in (1, 2, 3, 4)]
+    af3 = [{"prog": prog_str(t), "pre": pre, "allocfail": k} for pre in (0, 1, 7) for t in thread_programs(["B", "G3", "G9", "L9"], 3, 1) for k in (1, 2, 3, 4)]
     return [
+        sweep("sweep-allocfail-3", "c11_vector", (1, 2), af3, what="three growth calls, the first .. fourth allocation inside the window throws, start sizes 0,1,7", weight=2.0),
+        sweep("sweep-allocfail", "c11_vector", (1, 2), af, what="two growth calls, the first .. fourth allocation (segment or long segment table) inside the window throws std::bad_alloc, start sizes 0,1,6,7,8; afterwards at(i) for every i < size() must return a constructed element or throw", tiers=("quick", "thorough"), weight=2.0),
         sweep("sweep-3x1-q", "c11_vector", (1, 1), [x for x in sw if x["pre"] in (0, 1, 7, 15)], what="every multiset of three growth calls out of push_back / emplace_back / grow_by(2|3,value) / grow_by(2) / grow_to_at_least(5) from start sizes 0,1,7,15", tiers=("quick",), weight=2.0),
         sweep("sweep-3x1", "c11_vector", (2, 2), sw, what="same from start sizes 0,1,2,3,7,8,15,16", tiers=("thorough",), weight=2.0),
         sweep("sweep-2x2", "c11_vector", (1, 2), sw2, what="every pair of two-call sequences over push_back / grow_by(2|5) / grow_to_at_least(9) from start sizes 0,1,6,14"),
@@ -430,6 +438,7 @@ def _c01():
         L.append(leg("rt-%s-asleep" % k, "c01_rt", (2, 3), {"kind": k, "asleep": 1}, flags=("-fp", "-hb"), what="same with the worker asleep when the window opens"))
     for ta in (1, 2, 3):
         L.append(leg("rt-copythrow-%d" % ta, "c01_rt", (2, 3), {"kind": "copythrow", "throwat": ta}, flags=("-fp", "-hb"), what="the copy of the functor into its task throws inside the %d. task_group::run; the group keeps being used: waits still cover every accepted unit" % ta))
+    L.append(leg("rt-abandon", "c01_rt", (2, 3), {"kind": "abandon", "children": 3}, flags=("-fp", "-hb"), what="one worker, two arenas: the worker spawns three tasks in the normal-priority arena and is recalled for a high-priority arena before it gets to them (it leaves with a non-empty pool); the main thread then enters the arena in another slot and waits for the group: the abandoned tasks must be found"))
     L.append(leg("rt-copythrow-defer", "c01_rt", (2, 3), {"kind": "copythrow", "throwat": 2, "defer": 1}, flags=("-fp", "-hb"), what="same, the failing call is task_group::defer"))
     for k in ("tg", "nested", "run_and_wait", "pfor", "pfor_auto", "pfor_aff", "isolate", "cancel", "enqueue"):
         L.append(leg("rt-%s-P1" % k, "c01_rt", (1, 2), {"kind": k, "P": 1}, flags=("-fp", "-hb"), what="%s with max_allowed_parallelism 1 / task_arena(1): no worker may be needed for the wait to cover all work" % k, weight=0.3))
